@@ -78,11 +78,13 @@ void compare_R1(Cmp& c, const Opm::RestartValue& a, const Opm::RestartValue& b, 
             c.num(std::string("C05.R1.solution.") + key, std::string(key) + "[" + std::to_string(k) + "]", vb[k], want, sol_tol);
         }
     }
-    if (a.hasExtra("VEXTRA") && !ecl_compat) {
-        if (!b.hasExtra("VEXTRA")) { c.fail("C05.R1.extra.missing", "extra array VEXTRA not restored"); return; }
-        const auto& ea = a.getExtra("VEXTRA"); const auto& eb = b.getExtra("VEXTRA");
-        if (ea.size() != eb.size()) { c.fail("C05.R1.extra.size", "VEXTRA size differs"); return; }
-        for (size_t k = 0; k < ea.size(); ++k) c.num("C05.R1.extra", "VEXTRA[" + std::to_string(k) + "]", eb[k], ea[k], dbl_tol);
+    if (!ecl_compat) for (const auto& ed : extra_catalogue()) {
+        const std::string key = ed.key;
+        if (!a.hasExtra(key)) continue;
+        if (!b.hasExtra(key)) { c.fail("C05.R1.extra.missing", "extra array " + key + " not restored"); return; }
+        const auto& ea = a.getExtra(key); const auto& eb = b.getExtra(key);
+        if (ea.size() != eb.size()) { c.fail("C05.R1.extra.size", key + " size differs"); return; }
+        for (size_t k = 0; k < ea.size(); ++k) c.num("C05.R1.extra", key + "[" + std::to_string(k) + "]", eb[k], ea[k], dbl_tol);
     }
     using R = Opm::data::Rates::opt;
     for (const auto& kv : a.wells) {
@@ -176,6 +178,7 @@ struct C05 : Scenario {
         p["gen"] = o.to_json();
         p["physics_seed"] = static_cast<long long>(rng.next() >> 16);
         p["write_double"] = rng.chance(0.4);
+        p["extra_mask"] = static_cast<long long>(rng.chance(0.25) ? 1 : rng.range(1, 31));
         p["ecl_compat"] = rng.chance(0.25);
         Json ms = Json::array();
         for (int s = 0; s < o.max_steps; ++s) { Json f = Json::array(); int n = static_cast<int>(rng.chance(0.5) ? 1 : rng.range(2, 3)); for (int k = 1; k < n; ++k) f.push(static_cast<double>(k) / n); f.push(1.0); ms.push(f); }
@@ -206,6 +209,7 @@ struct C05 : Scenario {
         bool multi = false; for (size_t k = 0; k < plan.at("ministeps").size(); ++k) if (plan.at("ministeps")[k].size() > 1) multi = true;
         if (multi) { Json p = plan; Json ms = Json::array(); for (size_t k = 0; k < plan.at("ministeps").size(); ++k) { Json f = Json::array(); f.push(1.0); ms.push(f); } p["ministeps"] = ms; out.push_back(p); }
         if (plan.getb("write_double")) { Json p = plan; p["write_double"] = false; out.push_back(p); }
+        if (plan.geti("extra_mask", 1) != 1) { Json p = plan; p["extra_mask"] = 1; out.push_back(p); }
         return out;
     }
 
@@ -226,7 +230,7 @@ struct C05 : Scenario {
             for (auto& st : m.steps) { st.by_date = false; st.days = 10; }
             Kw wt; wt.name = "WELTARG"; wt.recs.push_back({"'" + wn + "'", "'ORAT'", "1426.8"}); m.steps[1].kws.push_back(wt);
         }
-        RunCfg cfg; cfg.physics_seed = static_cast<std::uint64_t>(plan.geti("physics_seed")); cfg.write_double = plan.getb("write_double"); cfg.ecl_compat = plan.getb("ecl_compat");
+        RunCfg cfg; cfg.physics_seed = static_cast<std::uint64_t>(plan.geti("physics_seed")); cfg.write_double = plan.getb("write_double"); cfg.ecl_compat = plan.getb("ecl_compat"); cfg.extra_mask = static_cast<unsigned>(plan.geti("extra_mask", 1));
         for (size_t k = 0; k < plan.at("ministeps").size(); ++k) { std::vector<double> f; for (size_t q = 0; q < plan.at("ministeps")[k].size(); ++q) f.push_back(plan.at("ministeps")[k][q].as_d()); cfg.ministeps.push_back(f); }
         const std::string mode = plan.gets("mode", "restart");
         const std::string deckA = deck_text(m);
